@@ -31,6 +31,13 @@ FUEL = 40
 XML_PROTOS = ('XmlDocument', 'Soap11', 'Soap12')
 DICT_PROTOS = ('JsonDocument', 'YamlDocument', 'MessagePackDocument')
 KEEP_ALIVE = []      # generated classes are never freed: memoize_id caches are keyed by id()
+STATS = {}
+
+
+def stat(kind, what, outcome):
+    w = what.split(' -> ')[0].split(':')[0]
+    k = '%s|%s|%s' % (kind, w, outcome[0] if outcome[0] != 'crash' else 'crash:' + outcome[2])
+    STATS[k] = STATS.get(k, 0) + 1
 
 IMPORTS = 'From SpyneV Require Import Base.Prelude Wire.Universe Wire.Xml C01.Leaf C16.Model C16.Leaf Gen.C16Shape.\n'
 
@@ -170,19 +177,23 @@ def gen_tree(rng, override=False):
         res = {'name': 'm%dResult' % i, 'ty': ty, 'min': mn, 'max': 1, 'nillable': nil, 'kind': 'elem'}
         cin = add('m%d' % i, tns, None, [param], msg=True)
         cout = add('m%dResponse' % i, tns, None, [res], msg=True)
-        methods.append({'name': 'm%d' % i, 'ty': ty, 'min': mn, 'nillable': nil, 'in': cin, 'out': cout})
+        methods.append({'name': 'm%d' % i, 'ty': ty, 'min': mn, 'nillable': nil, 'in': cin, 'out': cout,
+                        'plain': mn == 0 and nil and rng.random() < 0.5})
     return {'tns': tns, 'classes': classes, 'n_user': n_user, 'methods': methods}
 
 
-def placed(desc, cid):
-    """the class and all its ancestors live in the namespace of the hierarchy root"""
-    c = desc['classes'][cid]
-    while c['parent'] is not None:
-        p = desc['classes'][c['parent']]
-        if p['ns'] != c['ns']:
+def placed(desc, cid, decl):
+    """cid is decl or a subclass of it, and every class on the way up to decl lives in decl's namespace
+    (the only placement the interface registers for substitution)"""
+    ns = desc['classes'][decl]['ns']
+    c = cid
+    while c is not None:
+        if desc['classes'][c]['ns'] != ns:
             return False
-        c = p
-    return True
+        if c == decl:
+            return True
+        c = desc['classes'][c]['parent']
+    return False
 
 
 def gen_value(rng, desc, ty, depth, in_quant=False, none_p=0.15):
@@ -193,7 +204,7 @@ def gen_value(rng, desc, ty, depth, in_quant=False, none_p=0.15):
     if ty[0] == 'arr':
         n = 0 if depth <= 0 else rng.choice([0, 1, 2, 3])
         return ('list', [gen_value(rng, desc, ty[1], depth - 1, in_quant, 0.0) for _ in range(n)])
-    subs = [s for s in U.subclasses(desc, ty[1]) if not in_quant or placed(desc, s)]
+    subs = [s for s in U.subclasses(desc, ty[1]) if not in_quant or placed(desc, s, ty[1])]
     cid = rng.choice(subs)
     vals = []
     for f in U.flat_fields(desc, cid):
@@ -246,7 +257,9 @@ def build(desc):
     body = {}
     b.param_types = []
     for m in desc['methods']:
-        t = ty_of(m['ty']).customize(min_occurs=m['min'], nillable=m['nillable'])
+        t = ty_of(m['ty'])
+        if not m.get('plain'):
+            t = t.customize(min_occurs=m['min'], nillable=m['nillable'])     # a customised variant of the declared class
         b.param_types.append(t)
 
         def mk(t, name):
@@ -707,6 +720,7 @@ def corr_xml(check, desc, b, prelude_for, tag, tier):
                                                   '%s %s soft=%s %s: %s -> %r' % (tag, proto, soft, what,
                                                                                   etree.tostring(el).decode()[:400], d)))
                                 check.count(('xml_dec', soft, etree.tostring(el)))
+                                stat('xml_dec', what, d)
         prelude = prelude_for(app_for[True], app_for[False], soft_app)
         lib.correspond(check, 'xml_enc', prelude, 'bool * nat * val * xnode * list rmark',
                        '(fun c => let \'(poly, cid, v, t, m) := c in match penc shape_src spyne_leaf (CF false poly) UU %d '
@@ -866,6 +880,7 @@ def corr_hier(check, desc, b, prelude_for, tag, tier):
                             dec_cases.append(('(%d%%nat, %s, Some %s)' % (cid, g_jv(canon_doc(d3)), gout(o, U.g_val)),
                                               '%s %s %s: %r -> %r' % (tag, proto, what, d3, o)))
                             check.count(('hier_dec', proto, repr(d3)))
+                            stat('hier_dec', what, o)
         prelude = prelude_for(app_for[True], app_for[False])
         lib.correspond(check, 'hier_enc', prelude, 'bool * nat * val * jv',
                        '(fun c => let \'(poly, cid, v, d) := c in match h_enc shape_src dict_leaf poly UU %d (TRef cid) v with '
@@ -877,6 +892,358 @@ def corr_hier(check, desc, b, prelude_for, tag, tier):
                        'match o with Some o => out_eqb val_eqb r o | None => negb (is_ok r) end)' % FUEL, dec_cases,
                        show='(fun c : nat * jv * option (out val) => let \'(cid, d, o) := c in '
                             'h_dec shape_src dict_leaf UU %d (TRef cid) d)' % FUEL)
+
+
+
+# ------------------------------------------------------------------ direct oracle (real code only)
+def norm_value(desc, v):
+    """the property's identifications: an empty unwrapped sequence (a max_occurs>1 member holding [])
+    is the same as None"""
+    if v[0] == 'list':
+        return ('list', [norm_value(desc, x) for x in v[1]])
+    if v[0] == 'obj':
+        out = []
+        for f, x in zip(U.flat_fields(desc, v[1]), v[2]):
+            if is_multi(f) and x[0] == 'list' and not x[1]:
+                x = ('none',)
+            out.append(norm_value(desc, x))
+        return ('obj', v[1], out)
+    return v
+
+
+def project(desc, ty, v):
+    """what polymorphic=False transmits: at every position the declared class's members only"""
+    if v[0] == 'list':
+        return ('list', [project(desc, ty[1] if ty[0] == 'arr' else ty, x) for x in v[1]])
+    if v[0] == 'obj':
+        c = ty[1]
+        fs = U.flat_fields(desc, c)
+        return ('obj', c, [project(desc, f['ty'], x) for f, x in zip(fs, v[2][:len(fs)])])
+    return v
+
+
+def expected_marks(desc, ty, v):
+    """(ns, name) of the runtime class of every object whose class is not the declared one, in document order"""
+    out = []
+    if v[0] == 'list':
+        for x in v[1]:
+            out += expected_marks(desc, ty[1] if ty[0] == 'arr' else ty, x)
+    elif v[0] == 'obj':
+        if v[1] != ty[1]:
+            c = desc['classes'][v[1]]
+            out.append((c['ns'], c['name']))
+        for f, x in zip(U.flat_fields(desc, v[1]), v[2]):
+            out += expected_marks(desc, f['ty'], x)
+    return out
+
+
+def leaf_text(v):
+    if v[0] == 'int':
+        return str(v[1])
+    if v[0] == 'bool':
+        return 'true' if v[1] else 'false'
+    return v[1]
+
+
+def ref_xml(desc, ty, name, v):
+    """reference shape of the element written for value v of declared type ty (runtime classes as
+    they are in v): (local name, 'nil' | ('leaf', text) | ('arr', [items]) | ('obj', class id, [members]))"""
+    if v[0] == 'none':
+        return (name, 'nil')
+    if v[0] in ('int', 'bool', 'text'):
+        return (name, ('leaf', leaf_text(v) or None))
+    if v[0] == 'list':
+        et = ty[1]
+        en = elem_name(desc, et)
+        return (name, ('arr', [ref_xml(desc, et, en, x) for x in v[1]]))
+    kids = []
+    for f, x in zip(U.flat_fields(desc, v[1]), v[2]):          # ancestors' members first, then own
+        if is_multi(f):
+            if x[0] == 'list':
+                kids += [ref_xml(desc, f['ty'], f['name'], y) for y in x[1]]
+            elif f['min'] > 0:
+                kids.append((f['name'], 'nil'))
+        elif x[0] != 'none' or f['min'] > 0:
+            kids.append(ref_xml(desc, f['ty'], f['name'], x))
+    return (name, ('obj', kids))
+
+
+def elem_name(desc, ty):
+    if ty[0] == 'prim':
+        return {'int': 'integer', 'text': 'string', 'bool': 'boolean'}[ty[1]]
+    if ty[0] == 'ref':
+        return desc['classes'][ty[1]]['name']
+    return elem_name(desc, ty[1]) + 'Array'
+
+
+def xml_shape(e):
+    from lxml import etree
+    name = etree.QName(e).localname
+    if e.get(XSI_NIL) in ('true', '1'):
+        return (name, 'nil')
+    kids = [k for k in e if isinstance(k.tag, str)]
+    return (name, kids, e.text)
+
+
+def same_xml(ref, e):
+    """does the element have the reference shape (local names, order, leaf text)?"""
+    from lxml import etree
+    name, body = ref
+    if etree.QName(e).localname != name:
+        return False
+    kids = [k for k in e if isinstance(k.tag, str)]
+    if body == 'nil':
+        return e.get(XSI_NIL) in ('true', '1') and not kids
+    if e.get(XSI_NIL) in ('true', '1'):
+        return False
+    if body[0] == 'leaf':
+        return not kids and (e.text or None) == body[1]
+    want = body[1]
+    return len(kids) == len(want) and all(same_xml(w, k) for w, k in zip(want, kids))
+
+
+def ref_doc(desc, ty, v, ordered):
+    """reference dict document for value v (runtime classes as in v): wrapper key = class name"""
+    if v[0] == 'none':
+        return None
+    if v[0] in ('int', 'bool', 'text'):
+        return v[1]
+    if v[0] == 'list':
+        return [ref_doc(desc, ty[1], x, ordered) for x in v[1]]
+    inner = []
+    for f, x in zip(U.flat_fields(desc, v[1]), v[2]):
+        if x[0] == 'none':
+            if f['min'] > 0:
+                inner.append((f['name'], None))
+        elif is_multi(f):
+            inner.append((f['name'], [ref_doc(desc, f['ty'], y, ordered) for y in x[1]]))
+        else:
+            inner.append((f['name'], ref_doc(desc, f['ty'], x, ordered)))
+    return {desc['classes'][v[1]]['name']: (inner if ordered else dict(inner))}
+
+
+def doc_pairs(d):
+    """a parsed document with every dict as an ordered list of pairs"""
+    if isinstance(d, dict):
+        return {'__pairs__': [(k, doc_pairs(v)) for k, v in d.items()]} if False else [(k, doc_pairs(v)) for k, v in d.items()]
+    if isinstance(d, list):
+        return ('list', [doc_pairs(x) for x in d])
+    return d
+
+
+def ref_pairs(d):
+    if isinstance(d, dict):
+        (k, inner), = d.items()
+        return [(k, [(a, ref_pairs(b)) for a, b in inner])]
+    if isinstance(d, list):
+        return ('list', [ref_pairs(x) for x in d])
+    return d
+
+
+def unorder(p):
+    if isinstance(p, list):
+        return dict((k, unorder(v)) for k, v in p)
+    if isinstance(p, tuple) and p and p[0] == 'list':
+        return [unorder(x) for x in p[1]]
+    return p
+
+
+def family(proto):
+    return proto
+
+
+def value_shape(desc, ty, v):
+    """what the value exercises (for finding keys)"""
+    tags = set()
+
+    def walk(t, x, ctxt):
+        if x[0] == 'list':
+            for y in x[1]:
+                walk(t[1] if t[0] == 'arr' else t, y, 'array' if t[0] == 'arr' else ctxt)
+        elif x[0] == 'obj':
+            depth = 0
+            c = x[1]
+            while c != t[1] and desc['classes'][c]['parent'] is not None:
+                c = desc['classes'][c]['parent']
+                depth += 1
+            tags.add('%s:sub+%d' % (ctxt, depth))
+            if not desc['classes'][x[1]]['fields']:
+                tags.add('memberless')
+            if all(y[0] == 'none' for y in x[2]):
+                tags.add('allnone')
+            for f, y in zip(U.flat_fields(desc, x[1]), x[2]):
+                walk(f['ty'], y, 'multi' if is_multi(f) else 'member')
+    walk(ty, v, 'top')
+    return ','.join(sorted(tags))
+
+
+def oracle_case(check, desc, b, mi, v, proto, poly, report=True):
+    """one value through the pipeline; returns the list of (key, what) the property is violated by"""
+    from lxml import etree
+    m = desc['methods'][mi]
+    app = get_app(desc, b, proto, poly)
+    full = app._c16_classes
+    dd = {'classes': desc['classes']}
+    lb = Loopback(app)
+    sent = U.to_native(dd, full, v)
+    del b.captured[:]
+    fails = []
+    pre = 'C16|%s|poly=%s' % (family(proto), 'on' if poly else 'off')
+    shape = value_shape(desc, m['ty'], v)
+    r = observe(lb.call, m['name'], sent)
+    want_v = v if poly else project(desc, m['ty'], v)
+    want = norm_value(dd, want_v)
+    if r[0] != 'ok':
+        err = getattr(lb, 'last_error', None)
+        fails.append(('%s|call-failed|%s|%s' % (pre, r[-1] if r[0] == 'crash' else 'ValidationError', shape),
+                      'echo of %r through %s polymorphic=%s failed: %r (server error: %r)' % (v, proto, poly, r, err)))
+    else:
+        if len(b.captured) != 1:
+            fails.append(('%s|user-code-calls|%s' % (pre, shape), 'user code ran %d times' % len(b.captured)))
+        else:
+            got = norm_value(dd, U.from_native(dd, full, b.captured[0]))
+            if got != want:
+                kind = 'class' if classes_of(got) != classes_of(want) else 'fields'
+                fails.append(('%s|server-object|%s|%s' % (pre, kind, shape),
+                              'user code received %r, the client sent %r (expected %r)' % (got, v, want)))
+        got = norm_value(dd, U.from_native(dd, full, r[1]))
+        if got != want:
+            kind = 'class' if classes_of(got) != classes_of(want) else 'fields'
+            fails.append(('%s|client-object|%s|%s' % (pre, kind, shape),
+                          'the client received %r, user code returned %r (expected %r)' % (got, v, want)))
+    # the transmitted documents
+    for di, raw in enumerate(lb.trace):
+        if di == 1 and r[0] != 'ok' and getattr(lb, 'last_error', None) is not None:
+            continue
+        which = 'request' if di == 0 else 'response'
+        cid = m['in'] if di == 0 else m['out']
+        mname = desc['classes'][cid]['name']
+        fname = desc['classes'][cid]['fields'][0]['name']
+        msg_v = ('obj', cid, [want_v])
+        if proto in XML_PROTOS:
+            try:
+                el = payload(proto, parse_xml(raw))
+            except Exception as e:
+                fails.append(('%s|%s|unparsable' % (pre, which), '%s is not XML: %r' % (which, raw[:200])))
+                continue
+            marks = real_marks(el)
+            exp = expected_marks(dd, ('ref', cid), msg_v)
+            if any(x is None for x in marks):
+                fails.append(('%s|%s|marker-unbound|%s' % (pre, which, shape),
+                              'the %s carries an xsi:type whose prefix is not declared in the document: %s'
+                              % (which, raw.decode('utf8', 'replace')[:600])))
+            elif marks != exp:
+                fails.append(('%s|%s|marker-wrong|%s' % (pre, which, shape),
+                              'type markers of the %s resolve to %r, the runtime classes are %r: %s'
+                              % (which, marks, exp, raw.decode('utf8', 'replace')[:600])))
+            if not same_xml(ref_xml(dd, ('ref', cid), mname, msg_v), el):
+                fails.append(('%s|%s|members|%s' % (pre, which, shape),
+                              'the %s does not carry exactly the members of %s (ancestors first, then own): %s'
+                              % (which, 'the runtime classes' if poly else 'the declared classes',
+                                 raw.decode('utf8', 'replace')[:600])))
+        else:
+            dumps, loads = wire_codec(proto)
+            try:
+                doc = canon_doc(loads(raw))
+            except Exception as e:
+                fails.append(('%s|%s|unparsable' % (pre, which), '%s does not parse: %r' % (which, raw[:200])))
+                continue
+            refd = ref_doc(dd, ('ref', cid), msg_v, True)
+            got_p, ref_p = doc_pairs(doc), ref_pairs(refd)
+            if unorder(got_p) != unorder(ref_p):
+                fails.append(('%s|%s|members|%s' % (pre, which, shape),
+                              'the %s does not carry exactly the members of %s under the class-name key: %r'
+                              % (which, 'the runtime classes' if poly else 'the declared classes', doc)))
+            elif proto != 'YamlDocument' and got_p != ref_p:
+                fails.append(('%s|%s|member-order|%s' % (pre, which, shape),
+                              'members of the %s are not in the order ancestors first, then own: %r' % (which, doc)))
+    if report:
+        for key, what in fails:
+            check.fail(key, what, {'kind': 'roundtrip', 'program': desc, 'method': mi, 'value': v, 'protocol': proto,
+                                   'polymorphic': poly})
+    return fails
+
+
+def classes_of(v):
+    if v[0] == 'obj':
+        return ('obj', v[1], [classes_of(x) for x in v[2]])
+    if v[0] == 'list':
+        return ('list', [classes_of(x) for x in v[1]])
+    return v[0]
+
+
+def non_subclass_names(desc, decl):
+    """names of classes in the namespace of decl that are not subclasses of it"""
+    subs = set(U.subclasses(desc, decl))
+    ns = desc['classes'][decl]['ns']
+    return [c['name'] for i, c in enumerate(desc['classes'][:desc['n_user']]) if i not in subs and c['ns'] == ns]
+
+
+def oracle_negative(check, desc, b, mi, v, proto, report=True):
+    """a type marker that names an unknown class or a class that is not a subclass of the declared
+    one must be refused, and user code must not run"""
+    from lxml import etree
+    m = desc['methods'][mi]
+    if m['ty'][0] != 'ref' or v[0] != 'obj' or v[1] == m['ty'][1]:
+        return []
+    decl = m['ty'][1]
+    bad_names = non_subclass_names(desc, decl) + ['Nope']
+    app = get_app(desc, b, proto, True)
+    full = app._c16_classes
+    dd = {'classes': desc['classes']}
+    lb = Loopback(app)
+    del b.captured[:]
+    r = observe(lb.call, m['name'], U.to_native(dd, full, v))
+    if r[0] != 'ok' or not lb.trace:
+        return []
+    req = lb.trace[0]
+    fails = []
+    for bad in bad_names[:3]:
+        if proto in XML_PROTOS:
+            doc = parse_xml(req)
+            el = payload(proto, doc)[0]
+            t = el.get(XSI_TYPE)
+            if t is None or ':' not in t:
+                return []
+            el.set(XSI_TYPE, t.split(':', 1)[0] + ':' + bad)
+            raw = etree.tostring(doc)
+        else:
+            dumps, loads = wire_codec(proto)
+            doc = loads(req)
+            (mk, inner), = doc.items()
+            (xk, wrapped), = inner.items()
+            if not isinstance(wrapped, dict) or len(wrapped) != 1:
+                return []
+            (ck, body), = wrapped.items()
+            inner[xk] = {(bad.encode('utf8') if isinstance(ck, bytes) else bad): body}
+            raw = dumps(doc)
+        del b.captured[:]
+        lb.serve(raw)
+        if lb.last_error is None or b.captured:
+            got = [U.from_native(dd, full, x) for x in b.captured]
+            fails.append(('C16|%s|marker-not-refused|%s' % (family(proto), 'unknown' if bad == 'Nope' else 'non-subclass'),
+                          'a request whose type marker names %s class %r where %r is declared was accepted; user code received %r'
+                          % ('the unknown' if bad == 'Nope' else 'the unrelated', bad, desc['classes'][decl]['name'], got),
+                          bad))
+    if report:
+        for key, what, bad in fails:
+            check.fail(key, what, {'kind': 'negative', 'program': desc, 'method': mi, 'value': v, 'protocol': proto,
+                                   'marker': bad})
+    return fails
+
+
+def oracle_program(check, desc, b, tier):
+    rng = check.rng
+    n = 2 if tier == 'quick' else 6
+    for mi, m in enumerate(desc['methods']):
+        for _ in range(n):
+            v = gen_value(rng, desc, m['ty'], depth=rng.randint(1, 3), in_quant=True)
+            for proto in XML_PROTOS + DICT_PROTOS:
+                for poly in (True, False):
+                    oracle_case(check, desc, b, mi, v, proto, poly)
+                    check.count(('oracle', proto, poly, json.dumps(desc, sort_keys=True), repr(v)))
+                if rng.random() < 0.5:
+                    oracle_negative(check, desc, b, mi, v, proto)
 
 
 # ------------------------------------------------------------------ run
@@ -905,6 +1272,7 @@ def run_program(check, desc, tag, tier, with_codecs=True):
     if with_codecs:
         corr_xml(check, desc, b, pf, tag, tier)
         corr_hier(check, desc, b, pf, tag, tier)
+        oracle_program(check, desc, b, tier)
     return b
 
 
@@ -928,6 +1296,7 @@ def run(check):
         desc = gen_tree(rng, override=True)
         run_program(check, desc, 'override program %d' % pi, tier, with_codecs=False)
     lib.flush_correspondences(check)
+    check.extra['outcomes_by_mutation'] = dict(sorted(STATS.items()))
     return check.finish()
 
 
